@@ -97,6 +97,24 @@ Theorem C18_oracle_sound_schedules : forall l0 f0 ls a b sets,
 Proof. exact c18_sched_sound. Qed.
 Print Assumptions C18_oracle_sound_schedules.
 
+(* two overlapping reads where the second one's fetch fails: the failing read errs without touching the
+   read revision, the first read is served at the revision it adopted; a garbage answer instead drags the
+   first read to revision 0 (finding C18-F2 again) *)
+Theorem C18_failed_fetch_leaves_others_alone : forall r l, fetch_succeeds l = false -> l <> Garbage200 ->
+  overlap_model r l = (RespError, [r], r).
+Proof. exact overlap_failed_fetch. Qed.
+Print Assumptions C18_failed_fetch_leaves_others_alone.
+Theorem C18_garbage_disturbs_others : forall r, overlap_model r Garbage200 = (RespOk, [r; 0], 0).
+Proof. exact overlap_garbage. Qed.
+Print Assumptions C18_garbage_disturbs_others.
+Theorem C18_oracle_sound_overlap : forall r l b_resp sets a_scan a_nonempty,
+  (0 < r)%N -> (forall v, l = ReachOk v -> (r <= v)%N) ->
+  c18_check (OverlapCase r l b_resp sets a_scan a_nonempty) = true ->
+  c18_oracle (OverlapCase r l b_resp sets a_scan a_nonempty) = None
+  \/ (c18_oracle (OverlapCase r l b_resp sets a_scan a_nonempty) = Some F_garbage_status /\ l = Garbage200).
+Proof. exact c18_overlap_sound. Qed.
+Print Assumptions C18_oracle_sound_overlap.
+
 (* non-vacuity *)
 Example C18_set_race_witness :
   let s := run_code (i_init 10 5) w_set_race in
